@@ -99,7 +99,8 @@ CHECKS = {
               "line/column equal 1 + number of line feeds before the offset and 1 + distance from the byte after the last of them. "
               "Tied to the code by the correspondence run (every range and error position compared) over generated, extension-syntax, "
               "corrupted and multi-line documents; the oracle re-checks enclosure/order/disjointness on the real tree and re-reads every "
-              "sub-value's byte range on the real library (the re-read statement is not yet a theorem)."),
+              "sub-value's byte range on the real library; re-reading is also a theorem: the bytes of any ranged sub-value, read on their own, "
+              "return that sub-value again (continuation independence + depth monotonicity + hereditary re-readability by induction on fuel)."),
         design_ref="DESIGN.md section 6, C11",
         note=NOTE_COMMON + " Handler-returned values are outside the theorem (a handler may return anything); their ranges are overwritten by the reader and checked by the oracle.",
         technique="Lean 4 proof (six-fold induction on reader fuel with accumulator invariants; binary-search invariant) + correspondence check + range/re-read oracle",
